@@ -78,11 +78,13 @@ class TransactionContextDecorator:
         if not self.current_tx or self._inner:
             self._inner = False
             return
-        if not exc_tb:
-            await self.commit()
-        else:
-            await self.rollback()
-        self.close()
+        try:
+            if not exc_tb:
+                await self.commit()
+            else:
+                await self.rollback()
+        finally:
+            self.close()
 
     def __call__(self, func: DecoratedFunc) -> DecoratedFunc:
         @wraps(func)
@@ -122,9 +124,25 @@ class Transaction:
         return LockTransactionBackend(backend, serializable=False, timeout=self._timeout)
 
     async def commit(self) -> None:
-        for tx_backend in list(self._backends.values()):
-            await tx_backend.commit()
+        backends = list(self._backends.values())
+        while backends:
+            try:
+                await backends.pop(0).commit()
+            except BaseException:
+                await self._rollback(backends)
+                raise
 
     async def rollback(self) -> None:
-        for tx_backend in list(self._backends.values()):
-            await tx_backend.rollback()
+        error = await self._rollback(list(self._backends.values()))
+        if error:
+            raise error
+
+    @staticmethod
+    async def _rollback(backends: list[TransactionBackend]) -> BaseException | None:
+        error = None
+        for tx_backend in backends:
+            try:
+                await tx_backend.rollback()
+            except Exception as exc:
+                error = error or exc
+        return error
